@@ -22,7 +22,7 @@ fn same_layout_other_type(t: &Ty, rng: &mut Rng) -> Option<Ty> {
 }
 
 pub fn run(cx: &mut Ctx) {
-    let n: u64 = if cx.thorough { 30_000 } else { 1_000 };
+    let n: u64 = if cx.thorough { 30_000 } else { 6_000 };
     for i in cx.cases(n) {
         if cx.out_of_time() {
             break;
